@@ -183,10 +183,9 @@ theorem split_eq (m : Mode) (s : Sparse) (i : Nat) (hw : s.width ≤ 64) (hi : s
   · have h64 : s.low.width = 64 := by omega
     simp [h64, shiftRight_64 i (hi h64)]
 
-/-- `combine`.  The code performs `high - low` only when the width is below 64; the model always performs it.  The two
-agree unless the width is ≥ 64, `p.low > p.high` and overflow checks are on (`combine_ne`). -/
-theorem combine_eq (m : Mode) (s : Sparse) (p : Pos)
-    (hw : s.width < 64 ∨ p.low ≤ p.high ∨ m = .wrapping) :
+/-- `combine`, unconditionally: the code performs `high - low` only when the width is below 64, and so does the model
+(beyond that the high part is 0). -/
+theorem combine_eq (m : Mode) (s : Sparse) (p : Pos) :
     gen_SparseVector_combine m s p = s.combine m p := by
   unfold gen_SparseVector_combine Sparse.combine
   simp only [Sparse.width]
@@ -196,34 +195,20 @@ theorem combine_eq (m : Mode) (s : Sparse) (p : Pos)
     | fault f => rfl
     | ok d =>
       simp only [shlU_lt m d h]
-  · have hz : ∀ d : Nat, d <<< s.low.width % U64 = 0 := by
-      intro d
-      have e : s.low.width = 64 + (s.low.width - 64) := by omega
-      rw [Nat.shiftLeft_eq, e, Nat.pow_add, U64_eq, ← Nat.mul_assoc, Nat.mul_comm d, Nat.mul_assoc]
-      exact Nat.mul_mod_right _ _
-    have hd : ∃ d, subM m p.high p.low = ok d := by
-      rcases hw with hw | hw | hw
-      · exact absurd hw h
-      · exact ⟨_, subM_ok hw⟩
-      · subst hw; unfold subM; by_cases hle : p.low ≤ p.high <;> simp [hle]
-    obtain ⟨d, hd⟩ := hd
-    simp only [h, decide_false, Bind.bind, Outcome.bind, Pure.pure, hd, hz]
-    cases h2 : s.low.get p.low with
-    | fault f => rfl
-    | ok l => cases h3 : addM m 0 l.toNat <;> rfl
+  · simp only [h, decide_false, if_false, Bind.bind, Outcome.bind, Pure.pure, Bool.false_eq_true]
 
-/-- the draft form of the hypothesis -/
+/-- the draft form of the hypothesis (a corollary now) -/
 theorem combine_eq_of_width (m : Mode) (s : Sparse) (p : Pos)
-    (hw : s.width < 64 ∨ (s.width = 64 ∧ p.low ≤ p.high)) :
+    (_hw : s.width < 64 ∨ (s.width = 64 ∧ p.low ≤ p.high)) :
     gen_SparseVector_combine m s p = s.combine m p :=
-  combine_eq m s p (hw.elim Or.inl fun h => Or.inr (Or.inl h.2))
+  combine_eq m s p
 
-/-- the hypothesis of `combine_eq` is necessary: at width 64 with `low > high` and overflow checks on, the code
-returns a value and the model panics on the subtraction -/
-theorem combine_ne :
+/-- at width 64 with `low > high` and overflow checks on, neither the code nor the model subtracts: both return a
+value (the former model performed the subtraction and panicked here) -/
+theorem combine_width64_no_subtraction :
     let s : Sparse := ⟨1, default, ⟨2, 64, ⟨128, #[5, 7]⟩⟩⟩
     gen_SparseVector_combine .checked s ⟨0, 1⟩ = ok (1, 7) ∧
-    s.combine .checked ⟨0, 1⟩ = fault (.panic .overflow) := by
+    s.combine .checked ⟨0, 1⟩ = ok (1, 7) := by
   decide
 
 theorem pos_eq (m : Mode) (s : Sparse) (r : Nat) : gen_SparseVector_pos m s r = s.pos m r := by
